@@ -124,8 +124,9 @@ Definition num_face_repetitions (subs : list subproblem) : list nat :=
 Definition eliminate_face (s : subproblem) : list nat :=
   where_ (fun f => negb (memb f (faces_in_subgrid s))) (l2g_faces s).
 
-(* the shortcut "all faces of the active grid are in this subgrid": the running sum is
-   REPLACED by the local result *)
+(* the shortcut "all faces of the active grid are in this subgrid": local and active
+   numberings coincide and the local result is added without mappings (code after the
+   repair `fix: Mpfa.discretize adds ...`; it used to REPLACE the running sum) *)
 Definition takes_shortcut (nf : nat) (s : subproblem) : bool :=
   nf =? length (faces_in_subgrid s).
 
@@ -145,8 +146,7 @@ Fixpoint nodupb (l : list nat) : bool :=
 Definition family_ok (nf : nat) (subs : list subproblem) : bool :=
   forallb (fun s => nodupb (l2g_faces s) && nodupb (faces_in_subgrid s)
                     && subset (faces_in_subgrid s) (l2g_faces s)) subs
-  && forallb (fun f => existsb (fun s => memb f (faces_in_subgrid s)) subs) (seq 0 nf)
-  && forallb (fun s => negb (takes_shortcut nf s)) (tl subs).
+  && forallb (fun f => existsb (fun s => memb f (faces_in_subgrid s)) subs) (seq 0 nf).
 
 Definition tie_sub (g : grid) (num_part : nat) (part : list nat) (impl : list subproblem)
                    (reps elim_sizes : list nat) : bool :=
